@@ -286,7 +286,9 @@ class StringLiteral(BaseType):
         return [], 'str'
 
     def _to_hash_string(self) -> str:
-        return f"{type(self).__name__}/{self._repr_literals()}"
+        # Unambiguous and independent of set iteration order ({"a,b"} and {"a", "b"} are different types)
+        literals = '...' if self._overflow else json.dumps(sorted(self._literals))
+        return f"{type(self).__name__}/{literals}"
 
     @property
     def literals(self):
